@@ -31,7 +31,8 @@ type VChan struct {
 
 	in         chan inItem
 	closeCh    chan struct{}
-	peerClosed bool // only touched by the scenario's root goroutine
+	closeErr   error // what Close reports (see FailClose)
+	peerClosed bool  // only touched by the scenario's root goroutine
 
 	mu          sync.Mutex
 	closed      int
@@ -198,8 +199,14 @@ func (c *VChan) Close() error {
 	}
 	c.Rec.Log("ChClose", "ch", c.Name)
 	c.Rec.Log("CE", "ch", c.Name)
-	return nil
+	c.mu.Lock()
+	cerr := c.closeErr
+	c.mu.Unlock()
+	return cerr // (the channel is closed all the same: a transport that complains while shutting down)
 }
+
+// FailClose makes Close report err (after closing the channel as usual).
+func (c *VChan) FailClose(err error) { c.mu.Lock(); c.closeErr = err; c.mu.Unlock() }
 
 // ClassifyRecord abstracts a record emitted by the library into an event:
 // shape ("object", "array", "emptyarray", "other"), and per item its id text,
